@@ -11,6 +11,21 @@ use std::io::{self};
 //extern crate slog_term;
 use slog::{o, Drain};
 
+/// verification hook (feature adlt_verif): capacity of the bounded channels between the
+/// processing stages from env ADLT_VERIF_CHANNEL_CAP, otherwise the given default.
+#[cfg(feature = "adlt_verif")]
+pub(crate) fn chan_cap(default: usize) -> usize {
+    std::env::var("ADLT_VERIF_CHANNEL_CAP")
+        .ok()
+        .and_then(|s| s.trim().parse().ok())
+        .unwrap_or(default)
+}
+#[cfg(not(feature = "adlt_verif"))]
+#[inline(always)]
+pub(crate) fn chan_cap(default: usize) -> usize {
+    default
+}
+
 fn main() -> Result<(), Box<dyn std::error::Error>> {
     // io::Result<()> {
     let cmd_app = Command::new("automotive dlt tool")
